@@ -130,6 +130,57 @@ PROPERTIES = {
                        "computes the same value.  This check owns ONLY the panic-class obligations of the listed units / harnesses.",
         "scan_uncovered": True,
     },
+    "C08": {
+        "level": "other",
+        "kani": ["parse::parse_u8_hex", "parse::parse_u8_oct", "parse::parse_u8_bin", "parse::parse_i8_hex", "parse::parse_error_kinds",
+                 "parse::parse_u8_dec", "parse::parse_i8_dec"],
+        "kani_thorough": ["parse::parse_u8_dec_long", "parse::parse_i8_dec_long"],
+        "explanation": "BOUNDED: the real from_str_u8 / from_str_i8 (run-time radix and layout through the hook wrappers) on EVERY byte string "
+                       "of at most 9 bytes (radix 2, 8, 16) resp. 6 bytes quick / 8 bytes thorough (radix 10), all nine 8-bit layouts symbolic, "
+                       "against the exactly rounded value of the literal (ties to even), the overflow flag, the wrapped value and the error "
+                       "classes of a grammar written independently of the tokeniser; complete within the bound, loops closed by unwinding assertions",
+        "bounded_parts": ["string length <= 9 (6 / 8 for decimal); 8-bit types only; wider types share parse_bounds and the generic digit loops "
+                          "but their dec_to_bin / get_int / get_frac instantiations are not covered"],
+    },
+    "C09": {
+        "level": "other",
+        "kani": ["display::display_default", "display::display_precision", "display::display_precision_region_reachable", "display::display_sign",
+                 "display::display_plus", "display::display_zero_pad", "display::display_width", "display::display_lower_hex",
+                 "display::display_upper_hex", "display::display_binary", "display::display_octal", "display::display_alt_hex"],
+        "explanation": "BOUNDED: the real fmt_dec / fmt_radix2 (run-time frac_nbits through the hook new-types) on every 8-bit value and all nine "
+                       "layouts: `{}` is the correct rounding at the digits shown and lies within half an ulp (round trip); `{:.p}` for p <= 9 is the "
+                       "exactly rounded expansion outside the region of the known finding; sign / + / zero padding / width only add prefix and padding; "
+                       "radix 2, 8, 16 outputs are exact",
+        "bounded_parts": ["8-bit layouts only; precision <= 9; width <= 12; one flag at a time; core::str::from_utf8 stubbed by its unchecked variant"],
+    },
+    "C12": {
+        "level": "proof",
+        "verus_units": ["transc"],
+        "kani": ["transc::exp_i9f23", "transc::sin_i9f23", "transc::cos_i9f23", "transc::cos_i32f32"],
+        "kani_thorough": ["transc::sqrt_i9f23", "transc::log2_i9f23", "transc::ln_i9f23", "transc::sqrt_u9f23", "transc::tan_i9f23",
+                          "transc::sin_i32f32", "transc::sin_i64f64", "transc::exp_i32f32"],
+        "explanation": "exp, pow, powi, ln, log2 verified (Verus) as written, generic over every supported (S, D), against trait-level contracts of "
+                       "Fixed: no panic-class obligation remains, Err for non-positive logarithms; the conventions 0^y, x^0, x^1 of pow / powi are "
+                       "postconditions.  sin, cos, tan, sqrt, log2_inner (iterator adapters / Newton loop) by Kani on I9F23 (whole domain resp. "
+                       "|x| <= 200) and on I32F32 / I64F64 for |x| <= 200",
+        "not_covered": ["sqrt for types other than I9F23 / U9F23 (Newton-loop invariant not proved generically)",
+                        "sin / cos / tan for types other than I9F23, I32F32, I64F64"],
+        "assumptions": ["trait-level contracts of Fixed / FixedSigned are the statements proved for the inherent methods in units nofrac / fracops; "
+                        "the trait_delegate! forwarders are not verified",
+                        "axioms ax_from_const, ax_from_src, ax_cmp_const (conversions from the I9F23 constants are lossless, cross-type comparison is exact: C04 / C03)",
+                        "log2_inner contract (result >= 0 for operand >= 1) assumed in Verus, covered for I9F23 by kani transc::log2_i9f23"],
+    },
+    "C17": {
+        "level": "proof",
+        "verus_units": ["transc"],
+        "kani": ["transc::exp_i9f23", "transc::sin_i9f23", "transc::cos_i9f23", "transc::cos_i32f32", "transc::sin_ticks_i9f23_whole_domain"],
+        "kani_thorough": ["transc::sqrt_i9f23", "transc::log2_i9f23", "transc::ln_i9f23", "transc::sqrt_u9f23", "transc::tan_i9f23",
+                          "transc::sin_i32f32", "transc::sin_i64f64", "transc::exp_i32f32", "transc::sin_ticks_i32f32_whole_domain"],
+        "explanation": "every Kani harness reads the hook iteration counter after the call and asserts ticks <= 4 * width + 64 (loops closed by "
+                       "unwinding assertions); in the generic Verus unit every loop is a `for` over a range bounded by frac_nbits() <= 128",
+        "not_covered": ["pow (= exp o ln, each bounded) has no harness of its own; types other than I9F23 / I32F32 / I64F64 for the data-dependent loops "
+                        "of log2_inner and sin"],
+    },
     "C18": {
         "level": "proof",
         "kani": _mods("wrap8", ["i4f4", "i0f8", "u4f4", "u0f8"], ["arith_ops", "bit_and_shift_ops", "rounding_and_conversion"])
